@@ -19,6 +19,10 @@ PYDIR = os.path.join(REPO, PKG, 'python')
 _loaded = {}
 
 
+class Missing(Exception):
+  """A (private) helper a body case looks at by name is absent from the working tree."""
+
+
 def install_contract_tf():
   from . import tfc, kerasc
   for k in list(sys.modules):
